@@ -66,6 +66,11 @@ class Dispatcher:
         # map eventname -> list of subscribed connections
         # eventname is <modulename> or <modulename>:<parametername>
         self._subscriptions = {}
+        # guards _active_connections and _subscriptions, held while an event is
+        # delivered to its listeners: a deactivation waits for deliveries under way.
+        # lock order: module.updateLock -> _subscription_lock -> connection send lock
+        # never acquire self._lock or an updateLock while holding it
+        self._subscription_lock = threading.RLock()
         self._lock = threading.RLock()
         self.name = name
         self.restart = srv.restart
@@ -77,18 +82,19 @@ class Dispatcher:
         """broadcasts a msg to all active connections
 
         used from the dispatcher"""
-        if reallyall:
-            listeners = self._connections
-        else:
-            # all subscribers to module:param
-            listeners = self._subscriptions.get(msg[1], set()).copy()
-            # all subscribers to module
-            module = msg[1].split(':', 1)[0]
-            listeners.update(self._subscriptions.get(module, set()))
-            # all generic subscribers
-            listeners.update(self._active_connections)
-        for conn in listeners:
-            conn.send_reply(msg)
+        with self._subscription_lock:
+            if reallyall:
+                listeners = self._connections
+            else:
+                # all subscribers to module:param
+                listeners = self._subscriptions.get(msg[1], set()).copy()
+                # all subscribers to module
+                module = msg[1].split(':', 1)[0]
+                listeners.update(self._subscriptions.get(module, set()))
+                # all generic subscribers
+                listeners.update(self._active_connections)
+            for conn in listeners:
+                conn.send_reply(msg)
 
     def announce_update(self, moduleobj, pobj):
         """called by modules param setters to notify subscribers of new values
@@ -96,16 +102,18 @@ class Dispatcher:
         self.broadcast_event(make_update(moduleobj.name, pobj))
 
     def subscribe(self, conn, eventname):
-        self._subscriptions.setdefault(eventname, set()).add(conn)
+        with self._subscription_lock:
+            self._subscriptions.setdefault(eventname, set()).add(conn)
 
     def unsubscribe(self, conn, eventname):
-        if ':' not in eventname:
-            # also remove 'more specific' subscriptions
-            for k, v in self._subscriptions.items():
-                if k.startswith(f'{eventname}:'):
-                    v.discard(conn)
-        if eventname in self._subscriptions:
-            self._subscriptions[eventname].discard(conn)
+        with self._subscription_lock:
+            if ':' not in eventname:
+                # also remove 'more specific' subscriptions
+                for k, v in self._subscriptions.items():
+                    if k.startswith(f'{eventname}:'):
+                        v.discard(conn)
+            if eventname in self._subscriptions:
+                self._subscriptions[eventname].discard(conn)
 
     def add_connection(self, conn):
         """registers new connection"""
@@ -116,10 +124,11 @@ class Dispatcher:
 
         to be called on the identification message
         """
-        for _evt, conns in list(self._subscriptions.items()):
-            conns.discard(conn)
+        with self._subscription_lock:
+            for _evt, conns in list(self._subscriptions.items()):
+                conns.discard(conn)
+            self._active_connections.discard(conn)
         self.set_all_log_levels(conn, 'off')
-        self._active_connections.discard(conn)
 
     def remove_connection(self, conn):
         """removes now longer functional connection"""
@@ -283,7 +292,8 @@ class Dispatcher:
             self.subscribe(conn, specifier)
         else:
             # activate all modules
-            self._active_connections.add(conn)
+            with self._subscription_lock:
+                self._active_connections.add(conn)
             modules = [(m, None) for m in self.secnode.export]
 
         # send updates for all subscribed values.
@@ -308,7 +318,8 @@ class Dispatcher:
         if specifier:
             self.unsubscribe(conn, specifier)
         else:
-            self._active_connections.discard(conn)
+            with self._subscription_lock:
+                self._active_connections.discard(conn)
             # XXX: also check all entries in self._subscriptions?
         return (DISABLEEVENTSREPLY, specifier, None) if specifier else (DISABLEEVENTSREPLY, None, None)
 
